@@ -174,7 +174,8 @@ def generic_rules(res, hist, allow_exc=(), allow_blocked=(), key=""):
                 if "gateway_base.py" in line or "<string>" in line or "multi.py" in line or "gateway_io.py" in line:
                     site = line.strip().split(",")[-1].strip()
             V.append(v("thread-crash", f"{tname.split(':')[0]};{site};{last.split(':')[0]}", f"in {name}: {tb[-500:]}"))
-        if p["info"].get("main_exc"):
+        if p["info"].get("main_exc") and p["info"].get("io_ready"):
+            # (a child that died before its bootstrap completed ran only the stub, not execnet)
             V.append(v("process-main-exception", f"{p['info']['main_exc'].split('(')[0]}", f"{name}: {p['info']['main_exc']}"))
     for op, blabel, pname in res.blocked:
         aid, oi, kind = op
